@@ -22,6 +22,17 @@ def obligations(tier):
                       funcs=("chartparse.instrument.InstrumentTrack.from_chart_lines", "chartparse.sync.SyncTrack.from_chart_lines",
                              "chartparse.globalevents.GlobalEventsTrack.from_chart_lines"),
                       bounds="unparsable lines inserted (once or twice) at any of 5 positions of a 4-line section: parsed track unchanged, one warning each"))
+    obs.append(Ob("C14.rx.instrument_lines", "PY", "vf.rx_props", "c07", 300, funcs=("chartparse.instrument.*.ParsedData._regex",),
+                  bounds="all strings: lines with unsupported indices (N 8, N 9, S 64 ...) are outside every recogniser (L<=UP, negatives)"))
+    if tier == "quick":
+        obs.append(Ob("C14.skip_real.1slot", "CH", "harness.h_lines", "skip_real", 900, {"VF_NSLOTS": 1},
+                      funcs=("chartparse.instrument.InstrumentTrack.from_chart_lines", TR + "parse_data_from_chart_lines"),
+                      bounds="real recognisers: one of 11 unsupported/foreign/garbage lines inserted at any of 5 positions: parsed track unchanged, one warning"))
+    else:
+        for k0 in range(1, 12):
+            obs.append(Ob(f"C14.skip_real.2slots.first{k0}", "CH", "harness.h_lines", "skip_real", 1500, {"VF_NSLOTS": 2, "VF_K0": k0},
+                          funcs=("chartparse.instrument.InstrumentTrack.from_chart_lines", TR + "parse_data_from_chart_lines"),
+                          bounds="two inserted lines (first fixed per partition), any positions"))
     for kind in range(9):
         obs.append(Ob(f"C14.one_datum_or_reject.kind{kind}", "CH", "harness.h_lines", "decode_line", 600, {"VF_KIND": kind, "VF_SYM": 0, "VF_MAXD": 2},
                       funcs=("*.ParsedData.from_chart_line",), bounds="a line yields one datum or RegexNotMatchError"))
